@@ -4,7 +4,7 @@ use serde_json::{json, Value};
 use std::io::Write;
 
 pub fn run_py(env: &Env, items: &[Value]) -> Option<Vec<Value>> {
-    let mut child = std::process::Command::new("python3-vt").arg("/verif/scripts/indep_cl.py").stdin(std::process::Stdio::piped()).stdout(std::process::Stdio::piped()).stderr(std::process::Stdio::piped()).spawn().ok()?;
+    let mut child = std::process::Command::new("python3-vt").arg(format!("{}/scripts/indep_cl.py", mccore::verif_root())).stdin(std::process::Stdio::piped()).stdout(std::process::Stdio::piped()).stderr(std::process::Stdio::piped()).spawn().ok()?;
     child.stdin.take()?.write_all(serde_json::to_string(items).ok()?.as_bytes()).ok()?;
     let o = child.wait_with_output().ok()?;
     match serde_json::from_slice::<Vec<Value>>(&o.stdout) { Ok(v) => Some(v), Err(_) => { env.machinery(&format!("indep_cl.py failed: {}", String::from_utf8_lossy(&o.stderr).chars().take(300).collect::<String>())); None } }
